@@ -795,6 +795,53 @@ func ruleNilDeref(c *Ctx, r *Repo, p *packages.Package, fd *ast.FuncDecl, param 
 				visit(x.X, known)
 				visit(x.Y, known)
 			}
+		case *ast.BlockStmt:
+			// facts established by a repairing guard ('if m == nil { m = <fresh map> }') hold for what follows
+			cur := known
+			for _, st := range x.List {
+				visit(st, cur)
+				if ifs, ok := st.(*ast.IfStmt); ok && ifs.Else == nil && ifs.Init == nil {
+					if be, ok := ast.Unparen(ifs.Cond).(*ast.BinaryExpr); ok && be.Op == token.EQL && types.ExprString(be.Y) == "nil" {
+						target := types.ExprString(be.X)
+						for _, bs := range ifs.Body.List {
+							if as, ok := bs.(*ast.AssignStmt); ok && as.Tok == token.ASSIGN && len(as.Lhs) == 1 && len(as.Rhs) == 1 && types.ExprString(as.Lhs[0]) == target {
+								fresh := false
+								switch rv := ast.Unparen(as.Rhs[0]).(type) {
+								case *ast.CompositeLit:
+									fresh = true
+								case *ast.CallExpr:
+									if id, ok := rv.Fun.(*ast.Ident); ok && id.Name == "make" {
+										fresh = true
+									}
+								}
+								if fresh {
+									cur = addFacts(cur, &ast.BinaryExpr{X: be.X, Op: token.NEQ, Y: be.Y}, true)
+								}
+							}
+						}
+					}
+				}
+			}
+		case *ast.AssignStmt:
+			for _, l := range x.Lhs {
+				ix, ok := ast.Unparen(l).(*ast.IndexExpr)
+				if !ok {
+					continue
+				}
+				if _, isSel := ast.Unparen(ix.X).(*ast.SelectorExpr); !isSel {
+					continue
+				}
+				if tv, ok := p.TypesInfo.Types[ix.X]; !ok || tv.Type == nil {
+					continue
+				} else if _, isMap := tv.Type.Underlying().(*types.Map); !isMap {
+					continue
+				}
+				s := types.ExprString(ix.X)
+				c.Check(known[s], "R19.5", "migrateConfig|map-store|"+s+"["+types.ExprString(ix.Index)+"]", r.Pos(x.Pos()), "a map field is stored into only after a guard installed a map where it was nil", fmt.Sprintf("%s[%s] is stored into without a preceding 'if %s == nil { %s = <fresh map> }' (or an enclosing non-nil test): a v2 file that sets this key makes migrate store into a nil map and crash", s, types.ExprString(ix.Index), s, s))
+			}
+			for _, rh := range x.Rhs {
+				visit(rh, known)
+			}
 		case *ast.StarExpr:
 			s := types.ExprString(x.X)
 			if strings.HasPrefix(s, param+".") {
@@ -808,7 +855,7 @@ func ruleNilDeref(c *Ctx, r *Repo, p *packages.Package, fd *ast.FuncDecl, param 
 					return true
 				}
 				switch m.(type) {
-				case *ast.IfStmt, *ast.BinaryExpr, *ast.StarExpr:
+				case *ast.IfStmt, *ast.BinaryExpr, *ast.StarExpr, *ast.BlockStmt, *ast.AssignStmt:
 					visit(m, known)
 					return false
 				}
